@@ -138,6 +138,16 @@ func (c *Ctx) prfPlusRules(r *Report, prefix string) {
 			}
 		}
 	}
+	if size == nil {
+		// blockLen := prf.Size() read once before the loop: a hash's output size does not change
+		for _, b := range fn.Blocks {
+			for _, ins := range b.Instrs {
+				if call, ok := ins.(*ssa.Call); ok && call.Call.IsInvoke() && isHashHash(call.Call.Value.Type()) && paramIndex(fn, call.Call.Value) == 0 && call.Call.Method.Name() == "Size" {
+					size = call
+				}
+			}
+		}
+	}
 	if write == nil || sum == nil || reset == nil || size == nil {
 		r.bad(rule, "lib.PrfPlus: Reset/Write/Sum/Size on the prf parameter inside the loop", c.Pos(fn.Pos()), "one of Reset, Write, Sum, Size is missing in the loop body")
 		return
